@@ -9,7 +9,6 @@ CONSTANTS
   SizeSet = {0, 1, 2}
   DTTLSet = {0, 2}
   TickSet = {1, 2}
-  MaxNow = 4
 INVARIANTS TypeOK Conforms Sane ContractShape MemShape ExpiredAsAbsent Agree
 PROPERTIES Consumed
 VIEW View
